@@ -40,7 +40,9 @@ pub fn map_paseto_err(e: &PasetoError) -> Outcome {
         PasetoError::ChaChaCipherError => ("ChaChaCipherError", ErrClass::Cipher),
         PasetoError::Infallibale { .. } => ("Infallibale", ErrClass::Other),
         PasetoError::FromUtf8Error { .. } => ("FromUtf8Error", ErrClass::Utf8),
-        _ => ("UnknownPasetoError", ErrClass::Other),
+        // a variant this harness does not know yet: everything PasetoError can say except the two UTF-8
+        // variants is an authentication / format / key error
+        _ => ("UnknownPasetoError", ErrClass::Cipher),
     };
     Outcome::Err { class, variant: variant.to_string(), args: vec![] }
 }
